@@ -58,8 +58,15 @@ where
     /// returns `None`.
     ///
     /// This method never performs any actual allocation.
+    ///
+    /// # Safety
+    ///
+    /// The returned pointer refers to a `T` that nobody has constructed. The caller must be
+    /// entitled to create a value of type `T` out of thin air: `T` must be inhabited and the
+    /// caller must be able to construct it (use [`ZstCache::alloc`] or [`ZstCache::alloc_static`],
+    /// which take an actual value, when in doubt).
     #[inline]
-    pub fn alloc_zst<T: 'gc>(&self) -> Option<Gc<'gc, T>> {
+    pub unsafe fn alloc_zst<T: 'gc>(&self) -> Option<Gc<'gc, T>> {
         if mem::size_of::<T>() == 0 && mem::align_of::<T>() <= MAX_ALIGN {
             debug_assert!(Gc::as_ptr(self.cached_ptr).align_offset(mem::align_of::<T>()) == 0);
             // SAFETY: The value is zero sized, and this pointer is at least of the correct
@@ -73,7 +80,8 @@ where
     /// Like [`Gc::new`], but returns the cached pointer if possible.
     #[inline]
     pub fn alloc<T: Collect<'gc>>(&self, mc: &Mutation<'gc>, t: T) -> Gc<'gc, T> {
-        if let Some(ptr) = self.alloc_zst() {
+        // SAFETY: the caller handed us a `T`.
+        if let Some(ptr) = unsafe { self.alloc_zst() } {
             ptr
         } else {
             Gc::new(mc, t)
@@ -83,7 +91,8 @@ where
     /// Like [`Gc::new_static`], but returns the cached pointer if possible.
     #[inline]
     pub fn alloc_static<T: 'static>(&self, mc: &Mutation<'gc>, t: T) -> Gc<'gc, T> {
-        if let Some(ptr) = self.alloc_zst() {
+        // SAFETY: the caller handed us a `T`.
+        if let Some(ptr) = unsafe { self.alloc_zst() } {
             ptr
         } else {
             Gc::new_static(mc, t)
